@@ -700,7 +700,7 @@ func corrupt(col *table.Collector, rng *rand.Rand, work, img string, im imageFac
 		return
 	}
 	victim := dirs[rng.Intn(len(dirs))]
-	for _, mode := range []string{"state-flip", "state-truncate", "meta-truncate", "meta-garbage", "meta-version"} {
+	for _, mode := range []string{"state-flip", "state-truncate", "state-append", "state-replace-tail", "meta-truncate", "meta-garbage", "meta-version"} {
 		mat := filepath.Join(work, "mat")
 		os.RemoveAll(mat)
 		copyTree(img, filepath.Join(mat, "base", "snapshots"))
@@ -720,6 +720,22 @@ func corrupt(col *table.Collector, rng *rand.Rand, work, img string, im imageFac
 				continue
 			}
 			os.WriteFile(sp, sb[:rng.Intn(len(sb))], 0o644)
+		case "state-append":
+			// stray bytes behind the data (a misdirected write, the tail of an older, longer file): an empty
+			// snapshot is affected as well
+			extra := make([]byte, 1+rng.Intn(4096))
+			rng.Read(extra)
+			os.WriteFile(sp, append(sb, extra...), 0o644)
+		case "state-replace-tail":
+			// same length, the last bytes are different
+			if len(sb) == 0 {
+				continue
+			}
+			k := 1 + rng.Intn(min(len(sb), 64))
+			for i := len(sb) - k; i < len(sb); i++ {
+				sb[i] ^= 0xff
+			}
+			os.WriteFile(sp, sb, 0o644)
 		case "meta-truncate":
 			os.WriteFile(mp, mb[:len(mb)/2], 0o644)
 		case "meta-garbage":
